@@ -8,6 +8,8 @@
         uninterp spec fn spec_dec(b: Seq<u8>) -> Option<(RequestForData, int)>;
         open spec fn progresses() -> bool { false }
         open spec fn self_delimiting() -> bool { false }
+        open spec fn dec_rel(b: Seq<u8>, v: &RequestForData, k: int) -> bool { true }
+        open spec fn dec_total() -> bool { false }
         /// the tag loop is specified by totality and frame clauses only
         open spec fn functional() -> bool { false }
         //@ fn exp:zvt | impl zvt_builder::encoding::Encoding<RequestForData> for zvt_builder::encoding::Default | encode | mod=feig::packets props=C03
@@ -44,6 +46,8 @@
         uninterp spec fn spec_dec(b: Seq<u8>) -> Option<(CVendFunctionsEnhancedSystemInformationCompletion, int)>;
         open spec fn progresses() -> bool { false }
         open spec fn self_delimiting() -> bool { false }
+        open spec fn dec_rel(b: Seq<u8>, v: &CVendFunctionsEnhancedSystemInformationCompletion, k: int) -> bool { true }
+        open spec fn dec_total() -> bool { false }
         /// the tag loop is specified by totality and frame clauses only
         open spec fn functional() -> bool { false }
         //@ fn exp:zvt | impl zvt_builder::encoding::Encoding<CVendFunctionsEnhancedSystemInformationCompletion> for zvt_builder::encoding::Default | encode | mod=feig::packets props=C03
@@ -80,6 +84,8 @@
         uninterp spec fn spec_dec(b: Seq<u8>) -> Option<(WriteFile, int)>;
         open spec fn progresses() -> bool { false }
         open spec fn self_delimiting() -> bool { false }
+        open spec fn dec_rel(b: Seq<u8>, v: &WriteFile, k: int) -> bool { true }
+        open spec fn dec_total() -> bool { false }
         /// the tag loop is specified by totality and frame clauses only
         open spec fn functional() -> bool { false }
         //@ fn exp:zvt | impl zvt_builder::encoding::Encoding<WriteFile> for zvt_builder::encoding::Default | encode | mod=feig::packets props=C03
@@ -116,6 +122,8 @@
         uninterp spec fn spec_dec(b: Seq<u8>) -> Option<(ChangeConfiguration, int)>;
         open spec fn progresses() -> bool { false }
         open spec fn self_delimiting() -> bool { false }
+        open spec fn dec_rel(b: Seq<u8>, v: &ChangeConfiguration, k: int) -> bool { true }
+        open spec fn dec_total() -> bool { false }
         /// the tag loop is specified by totality and frame clauses only
         open spec fn functional() -> bool { false }
         //@ fn exp:zvt | impl zvt_builder::encoding::Encoding<ChangeConfiguration> for zvt_builder::encoding::Default | encode | mod=feig::packets props=C03
@@ -152,6 +160,8 @@
         uninterp spec fn spec_dec(b: Seq<u8>) -> Option<(CVendFunctions, int)>;
         open spec fn progresses() -> bool { false }
         open spec fn self_delimiting() -> bool { false }
+        open spec fn dec_rel(b: Seq<u8>, v: &CVendFunctions, k: int) -> bool { true }
+        open spec fn dec_total() -> bool { false }
         /// the tag loop is specified by totality and frame clauses only
         open spec fn functional() -> bool { false }
         //@ fn exp:zvt | impl zvt_builder::encoding::Encoding<CVendFunctions> for zvt_builder::encoding::Default | encode | mod=feig::packets props=C03
@@ -188,6 +198,8 @@
         uninterp spec fn spec_dec(b: Seq<u8>) -> Option<(WriteData, int)>;
         open spec fn progresses() -> bool { false }
         open spec fn self_delimiting() -> bool { false }
+        open spec fn dec_rel(b: Seq<u8>, v: &WriteData, k: int) -> bool { true }
+        open spec fn dec_total() -> bool { false }
         /// the tag loop is specified by totality and frame clauses only
         open spec fn functional() -> bool { false }
         //@ fn exp:zvt | impl zvt_builder::encoding::Encoding<WriteData> for zvt_builder::encoding::Default | encode | mod=feig::packets props=C03
